@@ -409,6 +409,10 @@ def build(spec, case_seed=0, solver_kwargs=None, make_solver=True):
                 rec["workers"] = list(res.list_of_workers)
             return rec
         h.assign.append(_stage("assign", a, mk))
+        # resource constraints declared between two assignments (they bind the assignments made so far)
+        for c in spec.get("constraints", []):
+            if c.get("after_assign") == len(h.assign):
+                _stage("constraint", c, lambda c=c: make_constraint(c, h))
     for b in spec.get("buffers", []):
         def mk(b=b):
             cls = ps.ConcurrentBuffer if b.get("concurrent") else ps.NonConcurrentBuffer
@@ -420,7 +424,7 @@ def build(spec, case_seed=0, solver_kwargs=None, make_solver=True):
         h.buffers[b["name"]] = _stage("buffer", b, mk)
     # constraints that do not depend on indicators
     for c in spec.get("constraints", []):
-        if c["type"] in ("IndicatorTarget", "IndicatorBounds"):
+        if c["type"] in ("IndicatorTarget", "IndicatorBounds") or c.get("after_assign") is not None:
             continue
         _stage("constraint", c, lambda c=c: make_constraint(c, h))
     for i in spec.get("indicators", []):
